@@ -8,6 +8,7 @@ func allMutants() []mutant {
 	var ms []mutant
 	ms = append(ms, mutantsC03...)
 	ms = append(ms, mutantsC08...)
+	ms = append(ms, mutantsC04...)
 	return ms
 }
 
@@ -91,4 +92,38 @@ var mutantsC08 = []mutant{
 	m1("c09-recover-in-next", ps("C09"), ps("C09-ONLY"), "context.go", "func (c *Context) Next() {\n\tc.index++", "func (c *Context) Next() {\n\tdefer func() { _ = recover() }()\n\tc.index++", "second recover around the executor"),
 	m1("c09-panicshandler-noabort", ps("C09"), ps("C09-INCHAIN"), "pkg/handlers/middlewares.go", "\t\t\t\tc.Abort()\n", "", "F13 again"),
 	m1("c09-wrong-key", ps("C09"), ps("C09-FRAME"), "dispatch.go", "ctx.Set(CTXRecoverResult, ret)", "ctx.Set(CTXCurrentRouteName, ret)", "recovered value stored under another key"),
+}
+
+var mutantsC04 = []mutant{
+	m1("c04-combine-swapped", ps("C04", "C12"), ps("C04-SEQ"), "router.go", "combineHandlers(r.currentGroupHandlers, route.handlers)", "combineHandlers(route.handlers, r.currentGroupHandlers)", "route middleware before group middleware"),
+	m1("c04-combine-body-swapped", ps("C04"), ps("C04-SEQ"), "middleware.go", "\tcopy(mergedHandlers, oldHandlers)\n\tcopy(mergedHandlers[len(oldHandlers):], newHandlers)", "\tcopy(mergedHandlers, newHandlers)\n\tcopy(mergedHandlers[len(newHandlers):], oldHandlers)", "combineHandlers concatenates in the wrong order"),
+	m1("c04-global-after-route", ps("C04"), ps("C04-SEQ"), "dispatch.go", "\tchain = append(chain, r.handlers...)\n\tchain = append(chain, handlers...)\n", "\tchain = append(chain, handlers...)\n\tchain = append(chain, r.handlers...)\n", "global middleware after the route's"),
+	m1("c04-handler-first", ps("C04"), ps("C04-SEQ"), "dispatch.go", "\tchain = append(chain, handlers...)\n\tif route != nil {\n\t\t// append main handler to last\n\t\tchain = append(chain, route.handler)\n\t}", "\tif route != nil {\n\t\tchain = append(chain, route.handler)\n\t}\n\tchain = append(chain, handlers...)", "main handler before the route middleware"),
+	m1("c04-no-global-on-404", ps("C04"), ps("C04-SEQ"), "dispatch.go", "\tchain = append(chain, r.handlers...)\n", "\tif route != nil {\n\t\tchain = append(chain, r.handlers...)\n\t}\n", "fallback handlers run without the global middleware"),
+	m1("c04-route-use-prepend", ps("C04"), ps("C04-SEQ"), "route.go", "r.handlers = append(r.handlers, middleware...)", "r.handlers = append(middleware, r.handlers...)", "Route.Use prepends"),
+	m1("c04-group-inner-first", ps("C04", "C12"), ps("C04-SEQ"), "router.go", "r.currentGroupHandlers = append(r.currentGroupHandlers, middles...)\n\t\t} else {", "r.currentGroupHandlers = append(middles, r.currentGroupHandlers...)\n\t\t} else {", "inner group middleware before outer"),
+	m1("c04-next-if", ps("C04", "C05"), ps("C04-CURSOR"), "context.go", "\tfor ; c.index < s; c.index++ {\n\t\tc.handlers[c.index](c)\n\t}", "\tif c.index < s {\n\t\tc.handlers[c.index](c)\n\t}", "executor runs one handler only"),
+	m1("c04-next-no-preinc", ps("C04"), ps("C04-CURSOR"), "context.go", "func (c *Context) Next() {\n\tc.index++\n", "func (c *Context) Next() {\n\tif c.index < 0 {\n\t\tc.index++\n\t}\n", "nested Next() re-runs the current handler"),
+	m1("c04-sethandlers-rewinds", ps("C04"), ps("C04-CURSOR"), "context.go", "func (c *Context) SetHandlers(handlers HandlersChain) { c.handlers = handlers }", "func (c *Context) SetHandlers(handlers HandlersChain) { c.handlers = handlers; c.index = -1 }", "cursor rewound inside the request path"),
+	m1("c04-verb-drops-middleware", ps("C04"), ps("C04-VERBS"), "router.go", "return r.Add(path, handler, PATCH).Use(middleware...)", "return r.Add(path, handler, PATCH)", "PATCH helper ignores its middleware"),
+	m1("c04-any-wrong-route", ps("C04"), ps("C04-VERBS"), "router.go", "\troute.Use(middles...)\n\n\tr.AddRoute(route)", "\tNewRoute(path, handler).Use(middles...)\n\n\tr.AddRoute(route)", "Any attaches middleware to a different route"),
+	m1("c04-default-always", ps("C04", "C06"), ps("C04-SEQ", "C06-DISPATCH"), "dispatch.go", "\t\thandlers = r.noRoute\n\t\tif len(handlers) == 0 {\n\t\t\thandlers = HandlersChain{internal404Handler}\n\t\t}", "\t\thandlers = HandlersChain{internal404Handler}", "custom NotFound handlers ignored"),
+	// C05
+	m1("c05-abortthen-noop", ps("C05"), ps("C05-SENTINEL"), "context.go", "func (c *Context) AbortThen() *Context {\n\tc.index = abortIndex\n", "func (c *Context) AbortThen() *Context {\n", "AbortThen does not park the cursor"),
+	m1("c05-abortwithstatus-early-return", ps("C05", "C20"), ps("C05-SENTINEL"), "context.go", "\t\thttp.Error(c.Resp, msg[0], code)\n\t}\n", "\t\thttp.Error(c.Resp, msg[0], code)\n\t\treturn\n\t}\n", "AbortWithStatus with a message does not abort"),
+	m1("c05-abortwithstatus-wrong-code", ps("C05"), ps("C05-SENTINEL"), "context.go", "\t\tc.Resp.WriteHeader(code)\n\t} else {", "\t\tc.Resp.WriteHeader(http.StatusForbidden)\n\t} else {", "status is not the caller's"),
+	m1("c05-isaborted-gt", ps("C05"), ps("C05-SENTINEL"), "context.go", "return c.index >= abortIndex", "return c.index > abortIndex", "IsAborted false right after Abort"),
+	m1("c05-hoisted-cursor", ps("C05", "C04"), ps("C05-NOSKIP", "C04-CURSOR"), "context.go", "\tfor ; c.index < s; c.index++ {\n\t\tc.handlers[c.index](c)\n\t}", "\tfor i := c.index; i < s; i++ {\n\t\tc.index = i\n\t\tc.handlers[i](c)\n\t}", "cursor hoisted into a local: Abort not seen by the running loop"),
+	m1("c05-limit-gt", ps("C05", "C13"), ps("C05-LIMIT"), "route.go", "if finalSize >= int(abortIndex) {", "if finalSize > int(abortIndex) {", "limit check off by one"),
+	m1("c05-limit-removed", ps("C05", "C13"), ps("C05-LIMIT"), "router.go", "if finalSize := len(route.handlers); finalSize >= int(abortIndex) {", "if finalSize := len(route.handlers); finalSize >= 1000 {", "group+route limit check defused"),
+	m1("c05-abort-panics", ps("C05"), ps("C05-NOSKIP", "C05-SENTINEL"), "context.go", "func (c *Context) Abort() {\n\tc.index = abortIndex\n", "func (c *Context) Abort() {\n\tc.index = abortIndex\n\tpanic(\"abort\")\n", "Abort unwinds the suspended callers"),
+	m1("c05-second-sentinel", ps("C05"), ps("C04-CURSOR", "C05-SENTINEL"), "context.go", "func (c *Context) AbortThen() *Context {\n\tc.index = abortIndex\n", "func (c *Context) AbortThen() *Context {\n\tc.index = 62\n", "second sentinel value"),
+	// C12
+	m1("c12-no-restore-handlers", ps("C12"), ps("C12-BRACKET"), "router.go", "\tr.currentGroupPrefix = prevPrefix\n\tr.currentGroupHandlers = prevHandlers\n", "\tr.currentGroupPrefix = prevPrefix\n", "group middleware not restored"),
+	m1("c12-restore-before-callback", ps("C12"), ps("C12-BRACKET"), "router.go", "\t// call register\n\tregister()\n\n\t// revert\n\tr.currentGroupPrefix = prevPrefix\n", "\tr.currentGroupPrefix = prevPrefix\n\tregister()\n", "prefix restored before the callback runs"),
+	m1("c12-alias-group-list", ps("C12"), ps("C12-COPY", "C04-SEQ"), "router.go", "route.handlers = combineHandlers(r.currentGroupHandlers, route.handlers)", "route.handlers = append(r.currentGroupHandlers, route.handlers...)", "route shares the group list's backing array"),
+	m1("c12-use-leaks-global", ps("C12", "C04"), ps("C12-USE", "C04-SEQ"), "middleware.go", "\t\tr.currentGroupHandlers = append(r.currentGroupHandlers, middles...)\n\t\treturn", "\t\tr.handlers = append(r.handlers, middles...)\n\t\treturn", "Use inside a group goes to the global list"),
+	m1("c12-prefix-unformatted", ps("C12", "C11"), ps("C12-EXTEND", "C11-SAME"), "router.go", "r.currentGroupPrefix = prevPrefix + r.formatPath(prefix)", "r.currentGroupPrefix = prevPrefix + prefix", "group prefix not normalised"),
+	m1("c12-resource-outside-group", ps("C12", "C16"), ps("C12-VIA"), "router.go", "\tresName := strings.ToLower(ct.Elem().Name())\n\tbasePath += resName\n", "\tresName := strings.ToLower(ct.Elem().Name())\n\tbasePath += resName\n\tr.GET(basePath+\"/ping\", func(c *Context) {})\n", "Resource registers a route outside the group"),
+	m1("c12-group-writes-global", ps("C12"), ps("C12-BRACKET"), "router.go", "\t\t\tr.currentGroupHandlers = middles\n", "\t\t\tr.currentGroupHandlers = middles\n\t\t\tr.handlers = append(r.handlers, middles[0])\n", "Group leaks its first middleware into the global list"),
 }
